@@ -141,6 +141,12 @@ type FS struct {
 	FailErr   error
 	FailKinds func(kind string) bool
 	Fired     int // steps that failed by injection
+	// SlowAt/SlowLen/SlowBy: the steps SlowAt .. SlowAt+SlowLen-1 each take SlowBy of
+	// simulated time before they complete (a stalled disk).
+	SlowAt  int
+	SlowLen int
+	SlowBy  time.Duration
+	Stalled int // steps that were delayed
 	Counts  map[string]int
 }
 
@@ -322,7 +328,17 @@ func (f *FS) step(t *simrt.Task, kind, path string, data []byte) error {
 		t.Sim().Count("fault.fs_error@"+kind, 1)
 		return f.FailErr
 	}
+	f.stall(t)
 	return nil
+}
+
+//go:norace
+func (f *FS) stall(t *simrt.Task) {
+	if f.SlowAt > 0 && f.Steps >= f.SlowAt && f.Steps < f.SlowAt+f.SlowLen && f.SlowBy > 0 {
+		f.Stalled++
+		t.Sim().Count("fault.fs_stall", 1)
+		simrt.Sleep(f.SlowBy)
+	}
 }
 
 //go:norace
@@ -807,6 +823,7 @@ func (f *FS) stepWrite(t *simrt.Task, file *File, p []byte) error {
 		t.Sim().Count("fault.fs_error@write", 1)
 		return f.FailErr
 	}
+	f.stall(t)
 	return nil
 }
 
